@@ -13,6 +13,7 @@ pub struct Recorder<'a> {
     seen_labels: BTreeSet<String>,
     pub stopped: bool,
     cur_path: Option<std::path::PathBuf>,
+    t0: Instant,
 }
 
 const MAX_SAMPLES_PER_SHARD: usize = 4;
@@ -42,13 +43,28 @@ pub fn summarise(v: &serde_json::Value) -> serde_json::Value {
 
 impl<'a> Recorder<'a> {
     pub fn new(known: &'a dyn Fn(&str) -> bool, cur_path: Option<std::path::PathBuf>) -> Self {
-        Recorder { res: ShardResult::default(), keys: BTreeSet::new(), known, seen_labels: BTreeSet::new(), stopped: false, cur_path }
+        Recorder { res: ShardResult::default(), keys: BTreeSet::new(), known, seen_labels: BTreeSet::new(), stopped: false, cur_path, t0: Instant::now() }
     }
 
     /// Note the case about to run (isolation: lets the parent attribute an abort or a hang).
     pub fn about_to_run(&self, case: &dyn Fn() -> serde_json::Value) {
         if let Some(p) = &self.cur_path {
             let _ = std::fs::write(p, serde_json::to_vec(&case()).unwrap_or_default());
+            // 0-based index of the case about to run (restart bookkeeping)
+            let _ = std::fs::write(p.with_extension("idx"), self.res.started.saturating_sub(1).to_string());
+        }
+    }
+
+    /// With isolation: persist what has been counted so far, so that an abort or hang of the shard
+    /// process loses only the case that caused it (the orchestrator restarts the shard behind it).
+    pub fn checkpoint(&self) {
+        if let Some(p) = &self.cur_path {
+            if self.res.started <= 4096 || self.res.started % 64 == 0 {
+                let mut snap = self.res.clone();
+                snap.nontrivial_keys = self.keys.iter().copied().collect();
+                snap.wall_s = self.t0.elapsed().as_secs_f64();
+                let _ = std::fs::write(p.with_extension("ckpt"), serde_json::to_vec(&snap).unwrap_or_default());
+            }
         }
     }
 
@@ -214,7 +230,18 @@ pub fn run_prop_shard<C: Case>(strategy: &dyn Fn(Tier) -> BoxedStrategy<C>, chec
     let mut runner = TestRunner::new(cfg);
     let strat = strategy(sc.tier);
     let failed = Cell::new(false);
+    // after an attributed abort/hang the orchestrator restarts the shard behind the offending case
+    let skip: u64 = std::env::var("NV_SKIP_CASES").ok().and_then(|s| s.parse().ok()).unwrap_or(0);
+    let started = Cell::new(0u64);
     let result = runner.run(&strat, |case: C| {
+        if !failed.get() {
+            let idx = started.get();
+            started.set(idx + 1);
+            rec.borrow_mut().res.started = idx + 1;
+            if idx < skip {
+                return Ok(());
+            }
+        }
         let to_json = || serde_json::to_value(&case).unwrap_or(serde_json::Value::Null);
         rec.borrow().about_to_run(&to_json);
         case_started(opts);
@@ -228,6 +255,7 @@ pub fn run_prop_shard<C: Case>(strategy: &dyn Fn(Tier) -> BoxedStrategy<C>, chec
             };
         }
         if rec.borrow_mut().record(&to_json, v) {
+            rec.borrow().checkpoint();
             Ok(())
         } else {
             failed.set(true);
